@@ -1,6 +1,9 @@
 package rules
 
 import (
+	"go/constant"
+	"fmt"
+	"os"
 	"go/token"
 	"go/types"
 	"strings"
@@ -726,6 +729,31 @@ func (c *Ctx) inmemExpiry(r *inmemRoles, rule string) {
 					return isCall && r.liveHelpers[ir.StaticCallee(call)]
 				})
 				if !live {
+					// the same through an in-place lookup: no path from the iteration step to the append avoids an edge
+					// on which a record was found fresh (no expiry, or not before now)
+					fresh := func(from, to *ssa.BasicBlock) bool {
+						k := r.expiryEdge(from, to)
+						return k == freshEdge || k == noExpiryEdge
+					}
+					viaFresh := false
+					ir.Instrs(fn, func(nx ssa.Instruction) {
+						if !isRangeNext(nx) {
+							return
+						}
+						if n2, isNext := nx.(*ssa.Next); !isNext || n2.Iter != ssa.Value(rg) {
+							return
+						}
+						w, err := (ir.PathQuery{Fn: fn, From: nx, StopEdge: fresh, Stop: func(y ssa.Instruction) bool { return y != nx && isRangeNext(y) },
+							Target: func(y ssa.Instruction, _ *ir.Valuation) bool { return y == x }}).Find()
+						if err == nil && w == nil {
+							viaFresh = true
+						} else if os.Getenv("VERIF_DEBUG") != "" && w != nil {
+							fmt.Fprintf(os.Stderr, "debug: range filter: %s\n", w.String(c.P))
+						}
+					})
+					live = viaFresh
+				}
+				if !live {
 					okAll = false
 				}
 			})
@@ -952,6 +980,9 @@ func (c *Ctx) inmemNotifyAfterMutate(r *inmemRoles, rule string) {
 					}
 					return false
 				})
+				if !absent {
+					absent = ir.HasFact(in.Block(), func(f ir.Fact) bool { return r.presenceWitness(f, false, 0, nil) })
+				}
 				if absent {
 					n++
 					c.Decide(rule, fn, "insert of an absent key needs no notification", in, true, "")
@@ -1179,6 +1210,9 @@ func (c *Ctx) inmemWaitRules(r *inmemRoles, w2, w3, w4, w5, w6 string) {
 					ex, isEx := ff.Cond.(*ssa.Extract)
 					return isEx && ex.Index == 1 && !ff.True
 				})
+				if !okG {
+					okG = e.HasFact(func(f ir.Fact) bool { return r.presenceWitness(f, false, 0, nil) })
+				}
 				c.Decide(w5, fn, "ErrNotExist only when the key is absent", ret, okG, "ErrNotExist is returned on a path where the key was not seen to be absent")
 			default:
 				if call, ok := ir.Resolve(ev).(*ssa.Call); ok && call.Call.IsInvoke() && call.Call.Method.Name() == "Err" {
@@ -1635,4 +1669,93 @@ func selectCaseOnPath(val *ir.Valuation, sel *ssa.Select) (int, bool) {
 		}
 	}
 	return 0, false
+}
+
+// presenceFact: f says that a lookup of the record table (or a call of a live-record helper) found (want) / did not find
+// (!want) the key.
+func (r *inmemRoles) presenceFact(f ir.Fact, want bool) bool {
+	ff := f.StripNot()
+	ex, ok := ff.Cond.(*ssa.Extract)
+	if !ok || ex.Index != 1 || ff.True != want {
+		return false
+	}
+	switch t := ex.Tuple.(type) {
+	case *ssa.Lookup:
+		_, isRecs := loadOfField(t.X, r.recs)
+		return isRecs
+	case *ssa.Call:
+		return r.liveHelpers[ir.StaticCallee(t)]
+	}
+	return false
+}
+
+// presenceWitness is presenceFact handed on through flags and pointers that are merged from several ways (a helper
+// returning "*Record or nil", a flag "drop this one"): the fact holds when every way of producing the observed value is
+// under it. For !want an expired-and-dropped record counts as absent. base is the direct test (nil: presenceFact).
+func (r *inmemRoles) presenceWitness(f ir.Fact, want bool, depth int, base func(ir.Fact, bool) bool) bool {
+	if depth > 6 {
+		return false
+	}
+	if base == nil {
+		base = r.presenceFact
+	}
+	if base(f, want) {
+		return true
+	}
+	if !want && r.expiryFact(f) == expiredEdge {
+		return true
+	}
+	ff := f.StripNot()
+	viaEdges := func(phi *ssa.Phi, pick func(e ssa.Value) bool) bool {
+		n := 0
+		for j, e := range phi.Edges {
+			if !pick(e) {
+				continue
+			}
+			n++
+			pred := phi.Block().Preds[j]
+			fs := append([]ir.Fact{}, ir.Facts(pred)...)
+			if ef := ir.EdgeFact(pred, phi.Block()); ef != nil {
+				fs = append(fs, *ef)
+			}
+			found := false
+			for _, g := range fs {
+				if r.presenceWitness(g, want, depth+1, base) {
+					found = true
+					break
+				}
+			}
+			if !found {
+				return false
+			}
+		}
+		return n > 0
+	}
+	if phi, isPhi := ff.Cond.(*ssa.Phi); isPhi {
+		allConst := true
+		for _, e := range phi.Edges {
+			if c, isC := e.(*ssa.Const); !isC || c.Value == nil || c.Value.Kind() != constant.Bool {
+				allConst = false
+			}
+		}
+		if allConst {
+			return viaEdges(phi, func(e ssa.Value) bool { return constant.BoolVal(e.(*ssa.Const).Value) == ff.True })
+		}
+	}
+	if cm, isCmp := ff.Cmp(); isCmp && (cm.Op == token.EQL || cm.Op == token.NEQ) {
+		x, y := cm.X, cm.Y
+		if ir.IsNilConst(x) {
+			x, y = y, x
+		}
+		if phi, isPhi := x.(*ssa.Phi); isPhi && ir.IsNilConst(y) {
+			if _, isPtr := phi.Type().Underlying().(*types.Pointer); isPtr {
+				isNil := cm.Op == token.EQL
+				if isNil == want {
+					return false // nil stands for "absent"
+				}
+				return viaEdges(phi, func(e ssa.Value) bool { return ir.IsNilConst(e) == isNil })
+			}
+		}
+	}
+	return false
 }
